@@ -32,6 +32,7 @@ use shred::{MetaIter, MetaIterMut, MetaTable, Resource, ResourceId, World};
 use std::collections::{BTreeMap, BTreeSet};
 use std::panic::{catch_unwind, AssertUnwindSafe};
 
+pub mod many;
 pub mod types;
 use types::*;
 
@@ -1934,10 +1935,34 @@ pub fn run(args: &Args, rep: &mut Report) {
     let mut drv = Drv::spawn(&args.str("driver", "/verif/lean/.lake/build/bin/driver"));
     rep.rule = "histories of register (with repeats) / world insert+remove / get / get_mut / get on a value outside the world / iter / iter_mut / next / whole-loop collect / the provided Iterator methods (nth, size_hint, and skip / step_by / take / the iterator itself consumed by collect / for_each / fold / last / count, on the iterator or on by_ref() of it and then used on; zip with a fresh iter / iter_mut), interleaved with try_fetch / try_fetch_mut guards of the same resources, over 40 types (listed in `types`: zero-sized / sized / Drop / aligned / generic implementors, each kind with the lawful CastFrom and with wrong ones — offset, another object of the same type, a static, a field, an object of another type, lawful until a switch is armed; 8 = does not implement the trait), on a table for `dyn Obj` or for a trait with supertraits; besides the random histories, for every type and both traits two fixed histories exercise register / get / get_mut / get outside the world / iter / iter_mut with the switch off and on; for every subset present of 4 types (two of them registered repeatedly) both iterators are driven through every provided method from the start and from later cursors, on a free world and with a shared / an exclusive guard alive, before and after a removal and a re-insertion — the expected result of each call is reckoned from the list of registered types in first-registration order filtered by presence; distinct = distinct (request, observed answer) histories; non-trivial = an iterator yielded at least one item and the history contains a repeated registration, a registered-but-absent type skipped, or an expected panic (borrow conflict / rejected cast)".into();
     let mut todo: Vec<(String, Vec<Op>)> = vec![];
+    // histories over hundreds of implementing types (their own little evaluator, same protocol)
+    let mut many_todo: Vec<(String, Vec<String>)> = vec![];
     if let Some(f) = args.get("replay") {
         let text = std::fs::read_to_string(&f).expect("replay file");
         let lines: Vec<String> = text.lines().map(|s| s.to_string()).collect();
-        todo.push((format!("replay:{}", f), Op::parse(&lines)));
+        if lines.first().map(|l| l.trim() == "many").unwrap_or(false) {
+            many_todo.push((format!("replay:{}", f), lines));
+        } else {
+            todo.push((format!("replay:{}", f), Op::parse(&lines)));
+        }
+    } else {
+        for c in 0..args.num("many-cases", 3) {
+            let mut rng = Rng::new(seed ^ 0x3a9f, c);
+            many_todo.push((format!("many:{}:{}", seed, c), many::gen(&mut rng)));
+        }
+    }
+    for (label, lines) in many_todo {
+        drv.begin_case();
+        let (bad, model) = many::eval(&lines, Some(&mut drv));
+        rep.case(&lines.join("\n"), true);
+        rep.count("histories_over_more_than_256_types");
+        rep.maxi("max_types_registered_in_one_table", lines.iter().filter(|l| l.starts_with("meta reg")).count() as u64);
+        if let Some(b) = bad.first() {
+            rep.violate("C17", "impl", "many", format!("{} [{}]", b, label), lines.clone());
+        }
+        if let Some(m) = model.first() {
+            rep.violate("MODEL:many", "model", "", format!("{} [{}]", m, label), lines.clone());
+        }
     }
     if let Some(dir) = args.get("corpus") {
         if let Ok(rd) = std::fs::read_dir(&dir) {
